@@ -50,7 +50,7 @@ def run(res, tier, seed, replay):
             # general universes: only the registration invariant / trace tie and the verdict are judged here
             t = r.get("trace", {})
             ok = t.get("db") and t.get("run") and (t.get("strict") if k == "sat" else t.get("unsat"))
-            if (k == "unsat" and want) or (k == "sat" and not want):
+            if (k == "unsat" and want) or (k == "sat" and want is False):
                 res.violation(key, f"verdict {k} but reference says solvable={want} in {r['stream']}", ss.replay_obj(r))
             elif k in ("sat", "unsat") and "trace" in r and not ok:
                 res.tie_break(f"trace checker rejects a log in {r['stream']} (every candidate revealed by a requirement must be registered "
@@ -59,7 +59,7 @@ def run(res, tier, seed, replay):
         if k == "unsat" and want:
             res.violation(key, f"a single candidate of a package with {n} candidates cannot be selected (solver says Unsolvable) in {r['stream']}",
                           ss.replay_obj(r))
-        elif k == "sat" and not want:
+        elif k == "sat" and want is False:
             res.violation(key, f"two candidates of one package ({n} candidates) selected together: {r['obs']['outcome']['sat']} in {r['stream']}",
                           ss.replay_obj(r))
         elif k not in ("sat", "unsat"):
